@@ -269,6 +269,9 @@ func (h *harness) runBatch(cases []*Case) {
 			if tieParse && o.res != nil && o.res.ParseLine0 != "" {
 				r.Op("parse 0 "+hexsrc, o.res.ParseLine0)
 			}
+			if c.Expr && o.res != nil && o.res.ExprLine != "" {
+				r.Op("pexpr "+hexsrc, o.res.ExprLine)
+			}
 		}
 		if o.res != nil {
 			tot := int64(0)
@@ -452,10 +455,15 @@ func main() {
 		}
 		h.runBatch(batch)
 	}
-	nStruct, nQuoted := 120, 500
+	nStruct, nQuoted, nExpr := 120, 500, 1500
 	if r.Thorough {
-		nStruct, nQuoted = 1500, 6000
+		nStruct, nQuoted, nExpr = 1500, 6000, 30000
 	}
+	batch = batch[:0]
+	for i := 0; i < nExpr; i++ {
+		batch = append(batch, genExprCase(r.Rand))
+	}
+	h.runBatch(batch)
 	batch = batch[:0]
 	for i := 0; i < nStruct; i++ {
 		batch = append(batch, genStructGraph(r.Rand))
@@ -517,5 +525,5 @@ func main() {
 	r.Finish("sources: unmutated std/ + hello-wuffs-c packages; every lexeme of every statement/declaration template deleted or doubled; " +
 		"tokenizer limits; nesting depth ladders of every recursive construct; random bytes and token soup; snippet programs and corpus packages under 1–3 " +
 		"token/line/tree/byte mutations; packages of structs containing each other (plain, arrays) in random declaration order; " +
-		"quoted literals assembled from complete and truncated escape atoms. Non-trivial = tokenizes (reaches the parser); distinct by SHA-256 of the primary file.")
+		"quoted literals assembled from complete and truncated escape atoms; random expressions (plain and mutated) through parse.ParseExpr. Non-trivial = tokenizes (reaches the parser); distinct by SHA-256 of the primary file.")
 }
